@@ -408,6 +408,22 @@ def r10_array_span(rep, facts):
                   f'(inclusive end) instead of 1..20: it does not cover its elements, or is stale', loc)
 
 
+def r11_table_span_grows(rep, facts):
+    R = rep.rule('C14/R11', 'a table spans from its header to the end of its last value: on_keyval evaluated on a model state (table span 10..20, value span 30..35) leaves the '
+                 'current table spanning 10..35', floor=2)
+    from .shared import keyval_model
+    d = 'toml_edit::parser::state::ParseState::on_keyval'
+    loc = facts.loc(facts.body(d)) if facts.has_body(d) else ''
+    for case, out in keyval_model(facts):
+        if isinstance(out, str):
+            (rep.incomplete if out.startswith('unanalysable') else rep.bad)(R, case, f'on_keyval, {case}: {out}', loc)
+            continue
+        if not out['ok']:
+            continue
+        rep.check(R, case, out['span'] == ('range', 10, 34), '10..35', f'on_keyval, {case}: afterwards the current table spans {out["span"]!r} (inclusive end) instead of 10..35: '
+                  f'the value lies outside its table\'s span', loc)
+
+
 def rules(rep, facts):
     feats = set(facts.crates.get('toml_edit', {}).get('features', []))
     if 'toml_edit' not in facts.crates or 'parse' not in feats:
@@ -419,6 +435,7 @@ def rules(rep, facts):
     r6b_header_span(rep, facts)
     r9_header_span_kept(rep, facts)
     r10_array_span(rep, facts)
+    r11_table_span_grows(rep, facts)
     if 'serde' in feats and 'serde_spanned' in facts.crates:
         r3_bridge(rep, facts)
         r4_uniform(rep, facts)
